@@ -3,6 +3,7 @@ package harness
 import (
 	"bytes"
 	"fmt"
+	"io"
 	"sort"
 
 	otter "github.com/maypok86/otter/v2"
@@ -112,79 +113,129 @@ func persistCheck(s *seqRunner, pp *persistParams, fail func(kind, subject, form
 					continue
 				}
 			}
-			trips++
-			tr := NewRig(cfgT, nil)
-			loadAt := t0 + off
-			if err := otter.LoadCacheFrom(tr.C, bytes.NewReader(data)); err != nil {
-				fail("load-error", "LoadCacheFrom", "LoadCacheFrom failed: %v", err)
-				tr.Close()
-				continue
-			}
-			tr.C.CleanUp()
-			got := map[int]otter.Entry[int, int]{}
-			for k := range tr.C.All() {
-				if e, ok := tr.C.GetEntryQuietly(k); ok {
-					got[k] = e
+			// jump < 0: the clock stands at t0+off for the whole load. jump >= 0: the load starts at the save time and
+			// the clock moves to t0+off while LoadCacheFrom is blocked reading byte `jump` of its input (entries are
+			// judged against the clock value at the end of the load)
+			for _, jump := range jumpsFor(off, tm, len(data)) {
+				trips++
+				loadAt := t0 + off
+				var rd io.Reader = bytes.NewReader(data)
+				if jump >= 0 {
+					cfgT.ClockStart = t0
+				} else {
+					cfgT.ClockStart = loadAt
 				}
-			}
-			tmax := tr.C.GetMaximum()
-			var liveW uint64
-			live := map[int]otter.Entry[int, int]{}
-			for _, e := range saved {
-				if s.cfg.Expiry == "" || e.ExpiresAtNano > loadAt {
-					live[e.Key] = e
-					liveW += uint64(e.Weight)
+				tr := NewRig(cfgT, nil)
+				if jump >= 0 {
+					rd = &jumpReader{data: data, at: jump, clock: tr.Clock, to: loadAt}
 				}
-			}
-			ctx := fmt.Sprintf("saved at %d, loaded at %d (+%d) into maximum %d", t0, loadAt, off, tmax)
-			var gotW uint64
-			for k, ge := range got {
-				gotW += uint64(ge.Weight)
-				le, ok := live[k]
-				if !ok {
-					kind := "absent-entry-loaded"
-					for _, e := range saved {
-						if e.Key == k {
-							kind = "expired-entry-loaded"
-						}
-					}
-					fail(kind, "LoadCacheFrom", "%s: key %d=%d (expires %d) is present in the loaded cache but was absent or already expired at load time", ctx, k, ge.Value, ge.ExpiresAtNano)
+				if err := otter.LoadCacheFrom(tr.C, rd); err != nil {
+					fail("load-error", "LoadCacheFrom", "LoadCacheFrom failed: %v", err)
+					tr.Close()
 					continue
 				}
-				if ge.Value != le.Value {
-					fail("loaded-value-mismatch", "LoadCacheFrom", "%s: key %d loaded with value %d, saved %d", ctx, k, ge.Value, le.Value)
-				}
-				if s.cfg.Expiry != "" && ge.ExpiresAtNano != le.ExpiresAtNano {
-					fail("loaded-deadline-mismatch", "LoadCacheFrom", "%s: key %d loaded with expiration %d, saved %d", ctx, k, ge.ExpiresAtNano, le.ExpiresAtNano)
-				}
-				if s.cfg.Refresh != "" {
-					if le.RefreshableAtNano > loadAt {
-						if ge.RefreshableAtNano != le.RefreshableAtNano {
-							fail("loaded-refresh-mismatch", "LoadCacheFrom", "%s: key %d loaded with refresh time %d, saved %d (still in the future)", ctx, k, ge.RefreshableAtNano, le.RefreshableAtNano)
-						}
-					} else if ge.RefreshableAtNano > loadAt+1 {
-						fail("loaded-refresh-mismatch", "LoadCacheFrom", "%s: key %d was due for refresh at %d but is loaded with refresh time %d", ctx, k, le.RefreshableAtNano, ge.RefreshableAtNano)
+				tr.C.CleanUp()
+				got := map[int]otter.Entry[int, int]{}
+				for k := range tr.C.All() {
+					if e, ok := tr.C.GetEntryQuietly(k); ok {
+						got[k] = e
 					}
 				}
-			}
-			if gotW > tmax {
-				fail("bound-exceeded", "LoadCacheFrom", "%s: loaded entries weigh %d", ctx, gotW)
-			}
-			if liveW <= tmax {
-				for k, le := range live {
-					if _, ok := got[k]; !ok {
-						kind := "live-entry-not-loaded"
-						if le.Weight == 0 {
-							kind = "zero-weight-entry-not-loaded"
-						}
-						fail(kind, "LoadCacheFrom", "%s: key %d=%d (expires %d) was not expired at load time and everything fits, but it was not loaded", ctx, k, le.Value, le.ExpiresAtNano)
+				tmax := tr.C.GetMaximum()
+				var liveW uint64
+				live := map[int]otter.Entry[int, int]{}
+				for _, e := range saved {
+					if s.cfg.Expiry == "" || e.ExpiresAtNano > loadAt {
+						live[e.Key] = e
+						liveW += uint64(e.Weight)
 					}
 				}
+				ctx := fmt.Sprintf("saved at %d, loaded at %d (+%d) into maximum %d", t0, loadAt, off, tmax)
+				if jump >= 0 {
+					ctx = fmt.Sprintf("saved at %d, load started at the same time, clock moved to %d (+%d) while the load was reading byte %d of %d, maximum %d", t0, loadAt, off, jump, len(data), tmax)
+				}
+				var gotW uint64
+				for k, ge := range got {
+					gotW += uint64(ge.Weight)
+					le, ok := live[k]
+					if !ok {
+						kind := "absent-entry-loaded"
+						for _, e := range saved {
+							if e.Key == k {
+								kind = "expired-entry-loaded"
+							}
+						}
+						fail(kind, "LoadCacheFrom", "%s: key %d=%d (expires %d) is present in the loaded cache but was absent or already expired at load time", ctx, k, ge.Value, ge.ExpiresAtNano)
+						continue
+					}
+					if ge.Value != le.Value {
+						fail("loaded-value-mismatch", "LoadCacheFrom", "%s: key %d loaded with value %d, saved %d", ctx, k, ge.Value, le.Value)
+					}
+					if s.cfg.Expiry != "" && ge.ExpiresAtNano != le.ExpiresAtNano {
+						fail("loaded-deadline-mismatch", "LoadCacheFrom", "%s: key %d loaded with expiration %d, saved %d", ctx, k, ge.ExpiresAtNano, le.ExpiresAtNano)
+					}
+					if s.cfg.Refresh != "" {
+						if le.RefreshableAtNano > loadAt {
+							if ge.RefreshableAtNano != le.RefreshableAtNano {
+								fail("loaded-refresh-mismatch", "LoadCacheFrom", "%s: key %d loaded with refresh time %d, saved %d (still in the future)", ctx, k, ge.RefreshableAtNano, le.RefreshableAtNano)
+							}
+						} else if ge.RefreshableAtNano > loadAt+1 {
+							fail("loaded-refresh-mismatch", "LoadCacheFrom", "%s: key %d was due for refresh at %d but is loaded with refresh time %d", ctx, k, le.RefreshableAtNano, ge.RefreshableAtNano)
+						}
+					}
+				}
+				if gotW > tmax {
+					fail("bound-exceeded", "LoadCacheFrom", "%s: loaded entries weigh %d", ctx, gotW)
+				}
+				if liveW <= tmax {
+					for k, le := range live {
+						if _, ok := got[k]; !ok {
+							kind := "live-entry-not-loaded"
+							if le.Weight == 0 {
+								kind = "zero-weight-entry-not-loaded"
+							}
+							fail(kind, "LoadCacheFrom", "%s: key %d=%d (expires %d) was not expired at load time and everything fits, but it was not loaded", ctx, k, le.Value, le.ExpiresAtNano)
+						}
+					}
+				}
+				tr.Close()
 			}
-			tr.Close()
 		}
 	}
 	return trips
+}
+
+// jumpsFor: -1 (no jump) always; for the same-size target and a positive offset also a jump in the middle and
+// near the end of the stream.
+func jumpsFor(off, tm int64, n int) []int {
+	if off <= 0 || tm >= 0 || n < 8 {
+		return []int{-1}
+	}
+	return []int{-1, n / 2, n - n/4}
+}
+
+// jumpReader hands out one byte per Read and moves the manual clock when byte `at` is requested.
+type jumpReader struct {
+	data  []byte
+	pos   int
+	at    int
+	clock *manualClock
+	to    int64
+}
+
+func (j *jumpReader) Read(p []byte) (int, error) {
+	if j.pos >= len(j.data) {
+		return 0, io.EOF
+	}
+	if len(p) == 0 {
+		return 0, nil
+	}
+	if j.pos == j.at {
+		j.clock.now = j.to
+	}
+	p[0] = j.data[j.pos]
+	j.pos++
+	return 1, nil
 }
 
 func (m *Model) totalLiveWeight() uint64 {
